@@ -125,8 +125,8 @@ def run(repo):
     for fq, (calls, fields) in want.items():
         f3 = repo.func(fq)
         res.functions.add(fq)
-        got_calls = {n.func.attr for n in walk_no_nested(f3.node) if isinstance(n, ast.Call)
-                     and isinstance(n.func, ast.Attribute) and is_self_attr(n.func)}
+        # the block producers are called directly or handed on as bound methods (self.showqc)
+        got_calls = {n.attr for n in walk_no_nested(f3.node) if is_self_attr(n) and n.attr.startswith('show')}
         got_fields = {n.attr for n in walk_no_nested(f3.node) if is_self_attr(n)}
         miss = [c for c in calls if c not in got_calls] + [f for f in fields if f not in got_fields]
         ok = not miss
